@@ -196,6 +196,86 @@ static std::string op(const Toks& t) {
   return "bad-op";
 }
 
+#ifdef VERIF_FUZZ
+// ---------------------------------------------------------------------------------------------
+// libFuzzer target (thorough tier, tools/gen_c16_fuzz.py): the input bytes are decoded into one
+// operation line of the protocol above and executed.  With VERIF_C16_DECODE set the target only
+// prints the operation line, so that what the fuzzer found is replayed through the ordinary
+// harness / model pipeline.
+static std::string keepNumbersSmall(const std::string& s, bool noExponent) {
+  // a count / range / step written in the text is not an input *length*: at most 3 digits in a row
+  std::string r; size_t run = 0;
+  for (size_t i = 0; i < s.size(); ++i) {
+    char c = s[i];
+    if (c >= '0' && c <= '9') { if (++run > 3) continue; }
+    else {
+      if (noExponent && (c == 'e' || c == 'E') && i > 0 && ((s[i - 1] >= '0' && s[i - 1] <= '9') || s[i - 1] == '.')) continue;
+      run = 0;
+    }
+    r.push_back(c);
+  }
+  if (noExponent) { std::string q; for (size_t i = 0; i < r.size(); ++i) { if (r[i] == '0' && i > 0 && (r[i - 1] == '.' )) { continue; } q.push_back(r[i]); } r = q; }
+  return r;
+}
+static Toks decodeFuzz(const uint8_t* data, size_t size) {
+  Toks t; if (size < 2) return t;
+  unsigned k = data[0] % 25, o = data[1];
+  std::vector<std::string> f(1);
+  for (size_t i = 2; i < size; ++i) { if (data[i] == 0x1f) f.push_back(""); else f.back().push_back((char)data[i]); }
+  auto F = [&](size_t i) { return i < f.size() ? f[i] : std::string(); };
+  auto H = [&](size_t i) { return strToHex(F(i)); };
+  auto C = [&](const char* tab, size_t n, unsigned sel) { return strToHex(std::string(1, tab[sel % n])); };
+  static const char* scripts[] = {"-", "u", "n.u", "e.u", "n.n.n.u", "n.e.u.n", "r.h.n.n.n.n", "g0.g1.g7", "n.u.e.u.n.u", "e.e.n.r"};
+  static const char* single[] = {"isEmpty", "upper", "lower", "rmws", "rmfirst", "rmlast", "trim", "rmnl", "rmlastnl"};
+  static const char* two[] = {"count", "starts", "ends", "has"};
+  static const char* sizes[] = {"0", "1", "2", "3", "4", "7", "64", "18446744073709551615", "9223372036854775808"};
+  switch (k) {
+    case 0: t = {std::string("tt.") + single[o % 9], H(0)}; break;
+    case 1: t = {"tt.num", H(0), C(".,e-", 4, o), C("eEx.", 4, o >> 2)}; break;
+    case 2: t = {(o & 1) ? "tt.resizeR" : "tt.resizeL", H(0), std::to_string((o >> 1) % 70), C(" .0", 3, o >> 7)}; break;
+    case 3: t = {"tt.split", H(0), sizes[o % 9]}; break;
+    case 4: t = {"tt.rmsub", H(0), C("([{a", 4, o), C(")]}(", 4, o >> 2)}; break;
+    case 5: t = {"tt.rmsub5", H(0), C("([<", 3, o), C(")]>", 3, o), "1", H(1), "1", H(2)}; break;
+    case 6: t = {std::string("tt.") + two[o % 4], H(0), H(1)}; break;
+    case 7: t = {"tt.replace", H(0), H(1), H(2)}; break;
+    case 8: t = {"st", H(0), H(1), (o & 1) ? "1" : "0", (o & 2) ? "1" : "0", scripts[(o >> 2) % 10]}; break;
+    case 9: t = {"nst", H(0), H(1), H(2), H(3), (o & 1) ? "1" : "0", scripts[(o >> 2) % 10]}; break;
+    case 10: t = {"kv.single", H(0), H(1)}; break;
+    case 11: t = {"kv.multi", H(0), H(1), (o & 1) ? "1" : "0"}; break;
+    case 12: t = {"kv.parse", H(0)}; break;
+    case 13: t = {"kv.change", H(0), H(1), (o & 1) ? "1" : "0", "1", H(2), H(3)}; break;
+    case 14: t = {"glob", H(0), H(1)}; break;
+    case 15: { static const char* b[] = {"#", "//", "/*"}; static const char* e[] = {"\n", "\n", "*/"};
+               t = {"at.rmc", H(0), strToHex(b[o % 3]), strToHex(e[o % 3])}; break; }
+    case 16: { t = {"at.map", H(0), std::to_string(f.size() - 1)}; for (size_t i = 1; i < f.size(); ++i) t.push_back(H(i)); break; }
+    case 17: { std::map<std::string, std::string> m; for (size_t i = 0; i + 1 < f.size(); i += 2) m[f[i]] = f[i + 1];
+               t = {"at.vars", "24", "28", "29", std::to_string(m.size())}; for (auto& kv : m) { t.push_back(strToHex(kv.first)); t.push_back(strToHex(kv.second)); } break; }
+    case 18: { static const char* n[] = {"ft.name", "ft.parent", "ft.ext"}; t = {n[o % 3], H(0)}; if (o % 3 != 2) t.push_back(C("/\\.", 3, o >> 2)); break; }
+    case 19: t = {"ic.read", H(0)}; break;
+    case 20: t = {"dt.read", H(0), strToHex(F(1)), (o & 1) ? "1" : "0", std::to_string((int)((o >> 1) % 5) - 1)}; break;
+    case 21: t = {"dd.read", strToHex(keepNumbersSmall(F(0), false)), (o & 1) ? "1" : "0"}; break;
+    case 22: t = {"nc.vec", strToHex(keepNumbersSmall(F(0), true))}; break;
+    case 23: t = {"nc.seq", strToHex(keepNumbersSmall(F(0), false)), H(1), H(2)}; break;
+    case 24: t = {"ct.parse", H(0)}; break;
+  }
+  return t;
+}
+extern "C" int LLVMFuzzerTestOneInput(const uint8_t* data, size_t size) {
+  static bool init = false, decode = false;
+  if (!init) {
+    init = true; decode = getenv("VERIF_C16_DECODE") != nullptr;
+    ApplicationTools::error = nullptr;
+    ApplicationTools::message = std::make_shared<NullOutputStream>();
+    ApplicationTools::warning = std::make_shared<NullOutputStream>();
+  }
+  if (size > 4096) return 0;
+  Toks t = decodeFuzz(data, size);
+  if (t.empty()) return 0;
+  if (decode) { std::string l; for (size_t i = 0; i < t.size(); ++i) { if (i) l += " "; l += t[i]; } std::printf("OP %s\n", l.c_str()); std::fflush(stdout); return 0; }
+  (void)op(t);
+  return 0;
+}
+#else
 // ---------------------------------------------------------------------------------------------
 static long envMs(const char* name, long dflt) { const char* e = getenv(name); return e ? atol(e) : dflt; }
 
@@ -280,3 +360,4 @@ int main() {
   std::cout.flush();
   return 0;
 }
+#endif
